@@ -117,7 +117,7 @@ type c17Resp struct {
 
 func c17Gzip(c *ctx) {
 	n := c.scale(c.pick(5000, 400000))
-	c.R.Rule = "generated inner handlers (status, explicit/implicit WriteHeader, content type matching/not matching/absent, pre-set Content-Encoding and Content-Length, body 0B-4MiB compressible or random, written in 1-50 chunks) x request Accept-Encoding/Accept/method, served by two real net/http servers on loopback: wrapped by NewGzipHandler and unwrapped (reference); 64 concurrent clients with transparent decompression disabled. gzip-labelled => allowed to compress and gunzips to the reference body; otherwise identical to the reference. non-trivial = response the wrapper compressed, or one it had to leave alone although the client accepts gzip; distinct by case"
+	c.R.Rule = "generated inner handlers (status, explicit/implicit WriteHeader, content type matching/not matching/absent, pre-set Content-Encoding and Content-Length, body 0B-4MiB compressible or random, written in 1-50 chunks) x request Accept-Encoding/Accept/method, served by two real net/http servers on loopback: wrapped by NewGzipHandler and unwrapped (reference); 64 concurrent clients with transparent decompression disabled, next to 4 clients that reset their connection in the middle of a 2-4 MiB compressed response (the wrapper's write fails). gzip-labelled => allowed to compress and gunzips to the reference body; otherwise identical to the reference. non-trivial = response the wrapper compressed, or one it had to leave alone although the client accepts gzip; distinct by case"
 	re := regexp.MustCompile(`^(text/.*|application/(javascript|json|xml))(;.*)?$`)
 	var cases sync.Map
 	inner := http.HandlerFunc(func(w http.ResponseWriter, r *http.Request) {
@@ -191,6 +191,44 @@ func c17Gzip(c *ctx) {
 	var idc atomic.Int64
 	var wg sync.WaitGroup
 	const G = 64
+	// clients that go away in the middle of a large compressed response (the server's write fails) while the others
+	// keep comparing: a failed response must not disturb any other
+	stopAbort := make(chan struct{})
+	var awg sync.WaitGroup
+	var aborted atomic.Int64
+	for a := 0; a < 4; a++ {
+		awg.Add(1)
+		go func(a int) {
+			defer awg.Done()
+			r := c.rng(int64(3900 + a))
+			addr := strings.TrimPrefix(wrappedURL, "http://")
+			for {
+				select {
+				case <-stopAbort:
+					return
+				default:
+				}
+				cs := &c17Case{ID: int(idc.Add(1)), Status: 200, ExplicitWH: r.Intn(2) == 0, ContentType: "text/plain", BodySeed: r.Int63(), Compress: false, AcceptEnc: "gzip", Method: "GET"}
+				for k := 0; k < 16; k++ {
+					cs.Chunks = append(cs.Chunks, 128*1024+r.Intn(128*1024))
+				}
+				cases.Store(cs.ID, cs)
+				conn, err := net.DialTimeout("tcp", addr, 5*time.Second)
+				if err == nil {
+					fmt.Fprintf(conn, "GET /?id=%d HTTP/1.1\r\nHost: x\r\nAccept-Encoding: gzip\r\n\r\n", cs.ID)
+					conn.SetReadDeadline(time.Now().Add(5 * time.Second))
+					io.ReadFull(conn, make([]byte, 2048+r.Intn(60000)))
+					if tc, ok := conn.(*net.TCPConn); ok {
+						tc.SetLinger(0) // reset: the server's next write fails
+					}
+					conn.Close()
+					aborted.Add(1)
+				}
+				time.Sleep(time.Duration(20+r.Intn(60)) * time.Millisecond) // let the handler run into the error
+				cases.Delete(cs.ID)
+			}
+		}(a)
+	}
 	for g := 0; g < G; g++ {
 		wg.Add(1)
 		go func(g int) {
@@ -294,6 +332,9 @@ func c17Gzip(c *ctx) {
 		}(g)
 	}
 	wg.Wait()
+	close(stopAbort)
+	awg.Wait()
+	c.R.SetCounter("responses_aborted_by_client", aborted.Load())
 	c.R.SetCounter("compressed_responses", compressed.Load())
 	c.R.SetCounter("uncompressed_responses", plain.Load())
 	if compressed.Load() < 100 || plain.Load() < 100 {
